@@ -744,6 +744,11 @@ def r01_6(ctx):
     want = {'raqote::blitter::SHIFT': SS, 'raqote::blitter::SCALE': 1 << SS, 'raqote::blitter::MASK': (1 << SS) - 1, 'raqote::blitter::SUPER_MASK': (1 << SS) - 1, 'raqote::rasterizer::SAMPLE_SIZE': float(1 << SS)}
     for q, v in want.items():
         got = const_of(ctx, q)
+        if got is None and q not in ctx.F.consts:
+            # a named constant that no longer exists cannot be wrong: its uses are literal values in the terms that the
+            # geometry rules (R01.5, the clauses below) read
+            ctx.note('constant %s not present (merged or inlined): nothing to compare' % short(q))
+            continue
         ctx.check(got == v, R, short(q) + '|value', '-', '%s = %s' % (short(q), got), '%s is %s, expected %s for SAMPLE_SHIFT = %d' % (short(q), got, v, SS))
     # conversion helpers
     forms = {'dot2_to_dot16': ('Shl', 16 - SS), 'dot16_to_dot2': ('Shr', 16 - SS), 'dot2_to_int': ('Shr', SS), 'int_to_dot2': ('Shl', SS)}
@@ -851,10 +856,21 @@ def axis_blind(t):
 
 
 def axes_used(t):
+    """axes of the per-axis fields a term reads; a whole Edge handed to a callee (compute_curve_steps(&edge), the shared
+    subdivision count) is not a per-axis read"""
     s = set()
-    for x in subterms(t):
-        if x[0] == 'field' and x[2] in AXIS_NAMES:
+
+    def walk(x):
+        if not isinstance(x, tuple) or not x:
+            return
+        if x[0] == 'agg' and isinstance(x[2], str) and x[2].endswith('rasterizer::Edge'):
+            return
+        if x[0] == 'field' and len(x) == 5 and x[2] in AXIS_NAMES:
             s.add('x' if 'x' in x[2] else 'y')
+        for y in x:
+            if isinstance(y, tuple):
+                walk(y)
+    walk(t)
     return s
 
 
@@ -1034,6 +1050,16 @@ def r10_5(ctx):
                 ok = is_call(r, RAS + 'new') and len(r[2]) == 2 and nosite(r[2][0]) == nosite(f.get('width')) and nosite(r[2][1]) == nosite(f.get('height'))
                 ctx.check(ok, R, '%s|rasterizer dimensions' % short(q), b.loc(s['sp']), 'rasterizer: Rasterizer::new(width, height) of the same surface',
                           '%s builds a DrawTarget {width: %s, height: %s} whose rasteriser is %s: the rasteriser culls, clamps and sizes its row table with other dimensions than the surface (on a non-square surface spans run past the coverage mask)' % (short(q), fmt(b, f.get('width', ('unknown', '?'))), fmt(b, f.get('height', ('unknown', '?'))), fmt(b, r)[:120]))
+    # a constructor that delegates to another one with (width, height) in place counts as that one
+    for q, b in sorted(ctx.F.bodies.items()):
+        if not q.startswith(DT) or q.split('::')[-1] not in ('new', 'from_vec', 'from_backing'):
+            continue
+        for t in shared.ret_terms(ctx, b):
+            t = strip_all(t)
+            if t[0] == 'call' and isinstance(t[1], str) and t[1] != q and t[1].startswith(DT) and t[1].split('::')[-1] in ('new', 'from_vec', 'from_backing') and len(t[2]) >= 2:
+                n += 1
+                ctx.check(strip_all(t[2][0]) == ('param', 1) and strip_all(t[2][1]) == ('param', 2), R, '%s|delegates with its own dimensions' % short(q), b.loc(), 'delegates with (width, height)',
+                          '%s delegates to %s with (%s, %s) instead of its own (width, height)' % (short(q), short(t[1]), fmt(b, t[2][0]), fmt(b, t[2][1])))
     ctx.floor(R, 'DrawTarget constructors', n, 3)
     nb = ctx.body(RAS + 'new', R)
     rts = shared.ret_terms(ctx, nb)
@@ -1073,6 +1099,30 @@ def r01_11(ctx):
     if not ctx.check(len(inserts) >= 1, R, key + '|insertion', b.loc(), 'insertion into edge_starts found', 'cannot find the insertion into edge_starts (fail closed)'):
         return
     want = {'bounds_left': ('min', 'x', None), 'bounds_right': ('max', 'x', None), 'bounds_top': ('min', 'y', 2), 'bounds_bottom': ('max', 'y', 3)}
+    # which point is the edge's upper end (2), its lower end (3), its control point (5): read off the Edge that add_edge
+    # builds -- (x1, y1) is the upper end, (x2, y2) the lower one -- so that the ordered end points may live in the
+    # (swapped) parameters or in locals of any name
+    ends = {}
+    for d0 in an.defs:
+        if d0.kind == 'assign' and not d0.partial and d0.bb in cfg.reach:
+            t0 = an.def_term(d0)
+            if t0[0] == 'agg' and (t0[2] or '').endswith('rasterizer::Edge'):
+                f0 = dict(t0[4])
+                for role, (fx, fy) in ((2, ('x1', 'y1')), (3, ('x2', 'y2')), (5, ('control_x', 'control_y'))):
+                    tx, ty = strip_all(f0.get(fx, ('unknown',))), strip_all(f0.get(fy, ('unknown',)))
+                    if is_call(tx, 'rasterizer::f32_to_dot2') and is_call(ty, 'rasterizer::f32_to_dot2'):
+                        px, py = strip_all(tx[2][0]), strip_all(ty[2][0])
+                        if px[0] == 'field' and py[0] == 'field' and px[2] == 'x' and py[2] == 'y' and nosite(strip_all(px[1])) == nosite(strip_all(py[1])):
+                            ends[nosite(strip_all(px[1]))] = role
+
+    def point_role(t):
+        t = strip_all(t)
+        r0 = ends.get(nosite(t))
+        if r0 is not None:
+            return r0
+        if t[0] in ('mem', 'param', 'phi') and t[1] in (2, 3, 5) and not ends:
+            return t[1]
+        return None
     feeds = {}
     n = 0
     for a, v, pt, kind in an.stores:
@@ -1126,8 +1176,10 @@ def r01_11(ctx):
                     '%s is updated with dot2_to_int(%s): the %s bound must be rounded %s (offset %s) or the coverage mask is one pixel short on that side and the last quarter-pixel column/row of coverage is clamped away' % (f, fmt(b, other[2][0])[:100], f.split('_')[1], 'down (offset <= 0)' if mm == 'min' else 'up (offset >= %d)' % up, k))
           deps = dt.direct_deps(an, other)
           for x in deps:
-              if len(x) == 5 and x[0] == 'field' and x[2] in ('x', 'y') and strip_all(x[1])[0] in ('mem', 'param', 'phi') and strip_all(x[1])[1] in (2, 3, 5):
-                  feeds.setdefault((f, strip_all(x[1])[1], x[2]), set()).add(pt[0])
+              if len(x) == 5 and x[0] == 'field' and x[2] in ('x', 'y'):
+                  role = point_role(x[1])
+                  if role is not None:
+                      feeds.setdefault((f, role, x[2]), set()).add(pt[0])
     ctx.floor(R, 'bounds updates in add_edge', n, 6)
     need = [('bounds_left', 2, 'x'), ('bounds_left', 3, 'x'), ('bounds_right', 2, 'x'), ('bounds_right', 3, 'x'), ('bounds_top', 2, 'y'), ('bounds_bottom', 3, 'y')]
     names = {2: 'start', 3: 'end', 5: 'control'}
